@@ -339,14 +339,8 @@ NoTokenAfterFailure == [][failed => ts' = ts]_vars
 \* state form of the same clause: a new token is there only if every check passed
 TokenOnlyIfChecksPassed ==
   ts = "new" => /\ ~failed /\ exchanged /\ StateOK(ares.state) /\ IssOK(ares.iss, asm.ip)
-                /\ \A d \in used : MatchOK(d) /\ PkceOK(d)
+                /\ \A d \in used : MatchOK(d) /\ PkceOK(d) /\ ScriptFree(d)
                 /\ \A p \in credsTo : PreOK(p)
 ResultKnown == pc \in {"done", "halt"} => result \in Results
 
-\* reachability witnesses: each must be VIOLATED (vacuity control)
-NeverOK == result # "ok"
-NeverPredef == asm.mode # "predef"
-NeverDcr == client # "dcr"
-NeverIssFail == result # "iss"
-NeverPreregFail == result # "prereg"
 =============================================================================
